@@ -60,13 +60,16 @@ func NewMemoryCache[MetadataT any](cfg *config.Config, memoryBudgetPercent int, 
 		byteSize:     atomics.NewInt64(0),
 	}
 
-	c.subs.Add(cfg.Cache.MaxCacheSize.OnChange(func(newSize bytesize.ByteSize) {
-		c.maxCacheSize.Set(newSize.Bytes())
+	// Notifications are delivered asynchronously and may arrive out of order, so the listeners apply
+	// the value that is current when they run rather than the one carried by the notification.
+	c.subs.Add(cfg.Cache.MaxCacheSize.OnChange(func(bytesize.ByteSize) {
+		c.maxCacheSize.Set(cfg.Cache.MaxCacheSize.Read().Bytes())
 	}))
 
-	c.subs.Add(cfg.Cache.Memory.MemoryBudgetPercent.OnChange(func(newPercent int) {
+	c.subs.Add(cfg.Cache.Memory.MemoryBudgetPercent.OnChange(func(int) {
 		c.mu.Lock()
 		defer c.mu.Unlock()
+		newPercent := cfg.Cache.Memory.MemoryBudgetPercent.Read()
 		c.memoryCap = int64(sysMem.Total) * int64(newPercent) / 100
 		slog.Info("Memory budget changed", "new_percent", newPercent, "new_cap", bytesize.ByteSize(c.memoryCap))
 	}))
